@@ -55,6 +55,8 @@ func ZSetUniverse() *Universe {
 	u.Cmds = append(u.Cmds,
 		[]string{"zadd", k, "1", "a"}, []string{"zadd", k, "2", "a"}, []string{"zadd", k, "1", "b"}, []string{"zadd", k, "-1", "b"}, []string{"zadd", k, "0", ""}, []string{"zadd", k, "1", ""},
 		[]string{"zadd", k, "1", "a", "2", "a"}, []string{"zadd", k, "1", "a", "1", "b"}, []string{"zadd", k, "1.5", "a"},
+		// a score so large that adding 1 does not change it (float64): the increment is absorbed
+		[]string{"zadd", k, "100000000000000000", "a"},
 		[]string{"zincrby", k, "1", "a"}, []string{"zincrby", k, "-1", "b"}, []string{"zincrby", k, "0", "a"},
 		[]string{"zrem", k, "a"}, []string{"zrem", k, "a", "b"}, []string{"zrem", k, "a", "a"}, []string{"zrem", k, ""},
 		[]string{"zremrangebyrank", k, "0", "0"}, []string{"zremrangebyrank", k, "-1", "-1"}, []string{"zremrangebyrank", k, "1", "0"},
